@@ -1394,7 +1394,10 @@ fn format_single_arg_call_without_parens(
             .is_single_arg_no_parens()
             .then(|| args_list.get_single_arg_expr())
             .flatten(),
-        SingleArgCallParens::Omit => args_list.get_single_arg_expr(),
+        // only a call with exactly one argument can lose its parentheses
+        SingleArgCallParens::Omit => (args_list.get_args().count() == 1)
+            .then(|| args_list.get_single_arg_expr())
+            .flatten(),
     }?;
 
     Some(match single_arg {
